@@ -224,6 +224,54 @@ def trace_events(seed, n):
     return evs, info
 
 
+def static_object_events(seed, n):
+    """a static object (fixed map pose) seen from an ego that moves, turns and TILTS between two loaded frames, stored in base_link: at every query
+    time between them the interpolated frame's own ego->map matrix must carry the returned base_link pose back onto the fixed map pose (plain
+    matrix algebra on the harness side, nothing of the library's pose arithmetic)"""
+    import numpy as np
+    from pyquaternion import Quaternion
+
+    from perception_eval.common.dataset import get_interpolated_now_frame
+    from perception_eval.common.schema import FrameID
+    from perception_eval.common.transform import HomogeneousMatrix
+
+    from ..build import frame_gt, obj3d
+
+    rng = random.Random(seed * 977 + 5)
+    evs, info = [], {}
+    for k in range(n):
+        P = np.array([rng.uniform(-60, 60), rng.uniform(-60, 60), rng.uniform(-1, 1)])
+        Q = Quaternion(axis=[0, 0, 1], radians=rng.uniform(-math.pi, math.pi))
+        frames = []
+        for j, tm in enumerate((0, 1000)):
+            eq = Quaternion(axis=[0, 0, 1], radians=rng.uniform(-math.pi, math.pi)) * Quaternion(axis=[0, 1, 0], radians=rng.uniform(-0.2, 0.2)) * Quaternion(axis=[1, 0, 0], radians=rng.uniform(-0.15, 0.15))
+            et = np.array([rng.uniform(-80, 80), rng.uniform(-80, 80), rng.uniform(-2, 2)])
+            R = eq.rotation_matrix
+            p_b = R.T @ (P - et)
+            q_b = eq.inverse * Q
+            ob = obj3d(tuple(p_b), yaw=0.0, label="car", uuid="static", time=BASE + tm * 100)
+            ob.state.orientation = q_b
+            M = HomogeneousMatrix(tuple(et), eq, src=FrameID.BASE_LINK, dst=FrameID.MAP)
+            frames.append(__import__("perception_eval.common.dataset", fromlist=["FrameGroundTruth"]).FrameGroundTruth(
+                unix_time=BASE + tm * 100, frame_name=str(j), objects=[ob], transforms=[M]))
+        tq = rng.choice([250, 500, 333, 900, 1])
+        try:
+            ri = get_interpolated_now_frame(frames, BASE + tq * 100, 2_000_000)
+            o = ri.objects[0]
+            Mi = ri.transforms[(FrameID.BASE_LINK, FrameID.MAP)].matrix
+            back_p = Mi[:3, :3] @ np.array(o.state.position) + Mi[:3, 3]
+            back_R = Mi[:3, :3] @ o.state.orientation.rotation_matrix
+            rp, rr = float(np.abs(back_p - P).max()), float(np.abs(back_R - Q.rotation_matrix).max())
+            base = dict(frame_is_base_link=1 if o.frame_id == FrameID.BASE_LINK else 0)
+        except Exception as ex:
+            rp, rr, base = -1.0, -1.0, dict(raised=repr(ex))
+        f9 = lambda v: -1 if v < 0 else int(min(2 * 10**9, round(v * 1e9)))
+        for law, v in (("static-object-position-drifts", rp), ("static-object-orientation-drifts", rr)):
+            evs.append(dict(tid=len(evs) + 1, law=law, res9=f9(v), tol9=1000))
+            info[len(evs)] = dict(case=k, query=tq, residual=v, **base)
+    return evs, info
+
+
 def run(ctx: Ctx):
     consts = dict(Times="{0,2,4,6}", QueryTimes="-2..8", Tols="{0,1,3}", MaxFrames="3", Ids="{1,2}",
                   ObjPoses="{[x |-> 1, y |-> 2, a |-> 0],[x |-> 5, y |-> -2, a |-> 5],[x |-> -3, y |-> 0, a |-> 20]}",
@@ -251,6 +299,12 @@ def run(ctx: Ctx):
     for t_, line, clause in rej:
         sig = "trace:" + clause
         ctx.violation(sig, "%s -> %s" % (info[t_], clause), info[t_])
+    sev, sinfo = static_object_events(ctx.seed, 200 if ctx.quick else 2000)
+    for t_, line, clause in trace.validate(ctx, "Trace_Residual", sev, tag="Trace_Residual_" + ctx.pid):
+        ctx.violation("trace:" + clause, "%s -> %s" % (sinfo[t_], clause), sinfo[t_])
+    ctx.traces += len(sev) // 2
+    ctx.evaluations += len(sev)
+    ctx.nontrivial_count += len(sev) // 2
     ctx.exhaustive = False
     ctx.rule = (
         "TLC evaluates Lookup / InterpLookup of Timeline.tla for sampled time-ordered frame lists (1-3 frames at times within {0,2,4,6}, objects "
